@@ -46,6 +46,9 @@ type Store struct {
 	lastFlush   time.Time
 	flushNotice chan struct{}
 
+	// flushLk serializes Flush calls.
+	flushLk sync.Mutex
+
 	// keyLks serialize Put and Remove calls that operate on the same key.
 	// Each of these calls is a sequence of separate index, primary and
 	// freelist operations that must not interleave with another update of
@@ -772,6 +775,13 @@ func (s *Store) outstandingWork() bool {
 // freelist files. It then syncs these files to permanent storage.
 func (s *Store) Flush() error {
 	vhook.At("store.flush.entry")
+	// Only one flush at a time. Otherwise a Flush that starts while another
+	// flush is running finds nothing outstanding, because the running flush
+	// has already taken the pending data, and returns nil before that data is
+	// written. A crash right after such a Flush returned would lose data that
+	// the caller was told is flushed.
+	s.flushLk.Lock()
+	defer s.flushLk.Unlock()
 	lastFlush := time.Now()
 
 	s.rateLk.Lock()
